@@ -361,21 +361,36 @@ Proof.
     apply inv_evict. assumption.
 Qed.
 
+Lemma stepx_ok cfg torc sorc s k o :
+  inv cfg s k ->
+  exists k', check_stepx cfg torc sorc k o (snd (stepx cfg torc sorc s o)) = (k', all_ok)
+             /\ inv cfg (fst (stepx cfg torc sorc s o)) k'.
+Proof.
+  intros Hi. destruct o as [a|a b]; simpl.
+  - destruct (step_ok cfg torc sorc s k a Hi) as [k' [Hk Hi']].
+    destruct (step cfg torc sorc s a) as [s' x]. simpl in *. eauto.
+  - destruct (step_ok cfg torc sorc s k a Hi) as [k1 [Hk1 Hi1]].
+    destruct (step cfg torc sorc s a) as [s1 x]. simpl in *.
+    destruct (step_ok cfg torc sorc s1 k1 b Hi1) as [k2 [Hk2 Hi2]].
+    destruct (step cfg torc sorc s1 b) as [s2 y]. simpl in *.
+    rewrite Hk1, Hk2. simpl. eauto.
+Qed.
+
 Lemma check_run cfg torc sorc : forall ops s k,
-  inv cfg s k -> check cfg torc sorc k (run cfg torc sorc s ops) = all_ok.
+  inv cfg s k -> check cfg torc sorc k (runx cfg torc sorc s ops) = all_ok.
 Proof.
   induction ops as [|o ops IH]; intros s k Hi; simpl; [reflexivity|].
-  destruct (step_ok cfg torc sorc s k o Hi) as [k' [Hk Hi']].
-  destruct (step cfg torc sorc s o) as [s' x] eqn:Es. simpl in *.
+  destruct (stepx_ok cfg torc sorc s k o Hi) as [k' [Hk Hi']].
+  destruct (stepx cfg torc sorc s o) as [s' x] eqn:Es. simpl in *.
   rewrite Hk, and_cl_ok. apply IH. assumption.
 Qed.
 
 Theorem history_ok cfg torc sorc ops :
-  spec_ok cfg torc sorc (run cfg torc sorc (init cfg) ops) = all_ok.
+  spec_ok cfg torc sorc (runx cfg torc sorc (init cfg) ops) = all_ok.
 Proof. apply check_run. apply inv_start. Qed.
 
 Theorem provenance_ok cfg torc sorc ops :
-  let '(_, _, fresh, cached) := spec_ok cfg torc sorc (run cfg torc sorc (init cfg) ops) in
+  let '(_, _, fresh, cached) := spec_ok cfg torc sorc (runx cfg torc sorc (init cfg) ops) in
   fresh = true /\ cached = true.
 Proof. rewrite history_ok. split; reflexivity. Qed.
 
@@ -464,4 +479,192 @@ Proof.
     split; [|reflexivity]. eapply request_other_cluster; eauto.
   - destruct (request cfg (skind cfg) sorc s (ss s) ho (sar_key a) (should_cache a) now) as [[st' r] calls] eqn:E. simpl.
     split; [reflexivity|]. eapply request_other_cluster; eauto.
+Qed.
+
+(* ---------- overlapping requests for hosts of different clusters commute ---------- *)
+Section Commute.
+  Context {A R : Type}.
+  Variable cfg : config.
+  Variable K : kind A R.
+  Variable orc : cluster -> nat -> A.
+
+  (* a served request reads and writes only its host's cache and its cluster's counter *)
+  Lemma serve_local st st' h c k cb now :
+    (forall k', kc st h k' = kc st' h k') -> kn st c = kn st' c ->
+    snd (fst (serve K orc st h c k cb now)) = snd (fst (serve K orc st' h c k cb now)) /\
+    snd (serve K orc st h c k cb now) = snd (serve K orc st' h c k cb now) /\
+    (forall k', kc (fst (fst (serve K orc st h c k cb now))) h k' = kc (fst (fst (serve K orc st' h c k cb now))) h k') /\
+    kn (fst (fst (serve K orc st h c k cb now))) c = kn (fst (fst (serve K orc st' h c k cb now))) c.
+  Proof.
+    intros Hk Hn. unfold serve. rewrite <- (Hk k), <- Hn.
+    destruct (if k_bypass K then None
+              else match kc st h k with
+                   | Some (r0, exp) => if k_valid K now exp then Some r0 else None
+                   | None => None
+                   end) as [r0|]; simpl.
+    - auto.
+    - destruct (ask (k_retriable K) (k_retries K) (orc c) (kn st c)) as [a n]. simpl.
+      repeat split; auto.
+      + intros k'. destruct (k_bypass K); [apply Hk|].
+        destruct (k_ttl K cb a); [|apply Hk].
+        unfold upd_cache. destruct (String.eqb h h && key_eqb k' k)%bool; [reflexivity|apply Hk].
+      + unfold upd_cnt. rewrite String.eqb_refl. reflexivity.
+  Qed.
+
+  Lemma serve_other_host st h c k cb now h2 k2 :
+    h2 <> h -> kc (fst (fst (serve K orc st h c k cb now))) h2 k2 = kc st h2 k2.
+  Proof.
+    intros Hne. unfold serve.
+    destruct (if k_bypass K then None
+              else match kc st h k with
+                   | Some (r0, exp) => if k_valid K now exp then Some r0 else None
+                   | None => None
+                   end) as [r0|]; simpl; [reflexivity|].
+    destruct (ask (k_retriable K) (k_retries K) (orc c) (kn st c)) as [a n]. simpl.
+    destruct (k_bypass K); [reflexivity|]. destruct (k_ttl K cb a); [|reflexivity].
+    unfold upd_cache. destruct (String.eqb h2 h) eqn:E; [|reflexivity].
+    apply String.eqb_eq in E. contradiction.
+  Qed.
+
+  Lemma serve_other_cluster st h c k cb now c2 :
+    c2 <> c -> kn (fst (fst (serve K orc st h c k cb now))) c2 = kn st c2.
+  Proof.
+    intros Hne. unfold serve.
+    destruct (if k_bypass K then None
+              else match kc st h k with
+                   | Some (r0, exp) => if k_valid K now exp then Some r0 else None
+                   | None => None
+                   end) as [r0|]; simpl; [reflexivity|].
+    destruct (ask (k_retriable K) (k_retries K) (orc c) (kn st c)) as [a n]. simpl.
+    unfold upd_cnt. destruct (String.eqb c2 c) eqn:E; [|reflexivity].
+    apply String.eqb_eq in E. contradiction.
+  Qed.
+
+  Definition req_cluster (ho : option host) : option cluster :=
+    match ho with Some h => cluster_of cfg h | None => None end.
+
+  Definition keqv (a b : kstate R) : Prop :=
+    (forall h k, kc a h k = kc b h k) /\ (forall c, kn a c = kn b c).
+
+  Lemma request_commute (s : state) st ho1 k1 cb1 now1 ho2 k2 cb2 now2 :
+    (req_cluster ho1 = None \/ req_cluster ho2 = None \/ req_cluster ho1 <> req_cluster ho2) ->
+    let r1 := request cfg K orc s st ho1 k1 cb1 now1 in
+    let r12 := request cfg K orc s (fst (fst r1)) ho2 k2 cb2 now2 in
+    let r2 := request cfg K orc s st ho2 k2 cb2 now2 in
+    let r21 := request cfg K orc s (fst (fst r2)) ho1 k1 cb1 now1 in
+    snd (fst r1) = snd (fst r21) /\ snd r1 = snd r21 /\
+    snd (fst r12) = snd (fst r2) /\ snd r12 = snd r2 /\
+    keqv (fst (fst r12)) (fst (fst r21)).
+  Proof.
+    intros Hd. unfold request.
+    destruct (route cfg s ho1) as [[h1 c1]|u1] eqn:E1.
+    2:{ simpl. destruct (route cfg s ho2) as [[h2 c2]|u2]; simpl; repeat split; reflexivity. }
+    destruct (route cfg s ho2) as [[h2 c2]|u2] eqn:E2.
+    2:{ simpl. repeat split; reflexivity. }
+    destruct (route_inl _ _ _ _ _ E1) as [-> [Hc1 _]].
+    destruct (route_inl _ _ _ _ _ E2) as [-> [Hc2 _]].
+    simpl in Hd. rewrite Hc1, Hc2 in Hd.
+    assert (Hc : c1 <> c2) by (destruct Hd as [H|[H|H]]; try discriminate; congruence).
+    assert (Hh : h1 <> h2) by (intros ->; rewrite Hc1 in Hc2; congruence).
+    set (a1 := serve K orc st h1 c1 k1 cb1 now1).
+    set (a2 := serve K orc st h2 c2 k2 cb2 now2).
+    (* serve 2 after 1 sees, at (h2, c2), the same as serve 2 on st *)
+    destruct (serve_local (fst (fst a1)) st h2 c2 k2 cb2 now2) as [P1 [P2 [P3 P4]]].
+    { intros k'. apply serve_other_host. auto. }
+    { apply serve_other_cluster. auto. }
+    destruct (serve_local (fst (fst a2)) st h1 c1 k1 cb1 now1) as [Q1 [Q2 [Q3 Q4]]].
+    { intros k'. apply serve_other_host. auto. }
+    { apply serve_other_cluster. auto. }
+    fold a1 in Q1, Q2, Q3, Q4. fold a2 in P1, P2, P3, P4.
+    repeat split; auto.
+    - intros h k.
+      destruct (String.eqb_spec h h2) as [->|N2].
+      + rewrite P3. symmetry. apply serve_other_host. auto.
+      + rewrite serve_other_host by assumption.
+        destruct (String.eqb_spec h h1) as [->|N1].
+        * symmetry. apply Q3.
+        * unfold a1. rewrite serve_other_host by assumption.
+          rewrite serve_other_host by assumption. unfold a2. rewrite serve_other_host by assumption. reflexivity.
+    - intros c.
+      destruct (String.eqb_spec c c2) as [->|N2].
+      + rewrite P4. symmetry. apply serve_other_cluster. auto.
+      + rewrite serve_other_cluster by assumption.
+        destruct (String.eqb_spec c c1) as [->|N1].
+        * symmetry. apply Q4.
+        * unfold a1. rewrite serve_other_cluster by assumption.
+          rewrite serve_other_cluster by assumption. unfold a2. rewrite serve_other_cluster by assumption. reflexivity.
+  Qed.
+End Commute.
+
+Lemma route_eps cfg s s' ho : eps s = eps s' -> route cfg s ho = route cfg s' ho.
+Proof. intros H. unfold route, ready. rewrite H. reflexivity. Qed.
+
+Lemma request_eps {A R} cfg (K : kind A R) orc s s' st ho k cb now :
+  eps s = eps s' -> request cfg K orc s st ho k cb now = request cfg K orc s' st ho k cb now.
+Proof. intros H. unfold request. rewrite (route_eps cfg s s' ho H). reflexivity. Qed.
+
+Definition is_request (o : op) : bool :=
+  match o with OAuthn _ _ _ | OAuthz _ _ _ => true | _ => false end.
+Definition op_cluster (cfg : config) (o : op) : option cluster := req_cluster cfg (op_host o).
+
+(* same endpoints, same cache contents for every host and key, same review counters for every cluster *)
+Definition state_eqv (a b : state) : Prop :=
+  eps a = eps b /\ keqv (ts a) (ts b) /\ keqv (ss a) (ss b).
+
+Lemma keqv_refl {R} (a : kstate R) : keqv a a.
+Proof. split; reflexivity. Qed.
+
+Theorem overlap_commutes cfg torc sorc s a b :
+  is_request a = true -> is_request b = true ->
+  (op_cluster cfg a = None \/ op_cluster cfg b = None \/ op_cluster cfg a <> op_cluster cfg b) ->
+  let ra := step cfg torc sorc s a in
+  let rab := step cfg torc sorc (fst ra) b in
+  let rb := step cfg torc sorc s b in
+  let rba := step cfg torc sorc (fst rb) a in
+  snd ra = snd rba /\ snd rab = snd rb /\ state_eqv (fst rab) (fst rba).
+Proof.
+  intros Ha Hb Hd.
+  destruct a as [ho1 tok1 now1|ho1 a1 now1| | | | |]; try discriminate;
+  destruct b as [ho2 tok2 now2|ho2 a2 now2| | | | |]; try discriminate; unfold op_cluster in Hd; simpl in Hd.
+  - (* token / token *)
+    pose proof (request_commute cfg (tkind cfg) torc s (ts s) ho1 (tkey tok1) true now1 ho2 (tkey tok2) true now2 Hd) as H.
+    simpl in H. simpl.
+    destruct (request cfg (tkind cfg) torc s (ts s) ho1 (tkey tok1) true now1) as [[st1 r1] c1] eqn:E1.
+    destruct (request cfg (tkind cfg) torc s (ts s) ho2 (tkey tok2) true now2) as [[st2 r2] c2] eqn:E2.
+    simpl in *.
+    rewrite (request_eps cfg (tkind cfg) torc {| eps := eps s; ts := st1; ss := ss s |} s) by reflexivity.
+    rewrite (request_eps cfg (tkind cfg) torc {| eps := eps s; ts := st2; ss := ss s |} s) by reflexivity.
+    destruct (request cfg (tkind cfg) torc s st1 ho2 (tkey tok2) true now2) as [[st12 r12] c12].
+    destruct (request cfg (tkind cfg) torc s st2 ho1 (tkey tok1) true now1) as [[st21 r21] c21].
+    simpl in *. destruct H as [H1 [H2 [H3 [H4 H5]]]]. subst.
+    repeat split; try reflexivity; apply H5.
+  - (* token / SAR: different caches altogether *)
+    simpl.
+    destruct (request cfg (tkind cfg) torc s (ts s) ho1 (tkey tok1) true now1) as [[st1 r1] c1] eqn:E1.
+    destruct (request cfg (skind cfg) sorc s (ss s) ho2 (sar_key a2) (should_cache a2) now2) as [[st2 r2] c2] eqn:E2.
+    simpl.
+    rewrite (request_eps cfg (skind cfg) sorc {| eps := eps s; ts := st1; ss := ss s |} s) by reflexivity.
+    rewrite (request_eps cfg (tkind cfg) torc {| eps := eps s; ts := ts s; ss := st2 |} s) by reflexivity.
+    simpl. rewrite E1, E2. simpl. repeat split; reflexivity.
+  - (* SAR / token *)
+    simpl.
+    destruct (request cfg (skind cfg) sorc s (ss s) ho1 (sar_key a1) (should_cache a1) now1) as [[st1 r1] c1] eqn:E1.
+    destruct (request cfg (tkind cfg) torc s (ts s) ho2 (tkey tok2) true now2) as [[st2 r2] c2] eqn:E2.
+    simpl.
+    rewrite (request_eps cfg (tkind cfg) torc {| eps := eps s; ts := ts s; ss := st1 |} s) by reflexivity.
+    rewrite (request_eps cfg (skind cfg) sorc {| eps := eps s; ts := st2; ss := ss s |} s) by reflexivity.
+    simpl. rewrite E1, E2. simpl. repeat split; reflexivity.
+  - (* SAR / SAR *)
+    pose proof (request_commute cfg (skind cfg) sorc s (ss s) ho1 (sar_key a1) (should_cache a1) now1
+                  ho2 (sar_key a2) (should_cache a2) now2 Hd) as H.
+    simpl in H. simpl.
+    destruct (request cfg (skind cfg) sorc s (ss s) ho1 (sar_key a1) (should_cache a1) now1) as [[st1 r1] c1] eqn:E1.
+    destruct (request cfg (skind cfg) sorc s (ss s) ho2 (sar_key a2) (should_cache a2) now2) as [[st2 r2] c2] eqn:E2.
+    simpl in *.
+    rewrite (request_eps cfg (skind cfg) sorc {| eps := eps s; ts := ts s; ss := st1 |} s) by reflexivity.
+    rewrite (request_eps cfg (skind cfg) sorc {| eps := eps s; ts := ts s; ss := st2 |} s) by reflexivity.
+    destruct (request cfg (skind cfg) sorc s st1 ho2 (sar_key a2) (should_cache a2) now2) as [[st12 r12] c12].
+    destruct (request cfg (skind cfg) sorc s st2 ho1 (sar_key a1) (should_cache a1) now1) as [[st21 r21] c21].
+    simpl in *. destruct H as [H1 [H2 [H3 [H4 H5]]]]. subst.
+    repeat split; try reflexivity; apply H5.
 Qed.
